@@ -31,6 +31,16 @@ static long refDecode(const unsigned char* p, size_t n, size_t& len) {
 
 static void decoders(size_t maxlen) {
   unsigned long long total = 0, validCount = 0, multi = 0, truncated = 0, agree = 0;
+  // length() of every byte value: 1 for ASCII, 2..4 for the UTF-8 lead bytes, 0 for continuation bytes and for 0xF8..0xFF
+  for (unsigned b = 0; b < 256; ++b) {
+    usize want = b < 0x80 ? 1 : (b & 0xE0) == 0xC0 ? 2 : (b & 0xF0) == 0xE0 ? 3 : (b & 0xF8) == 0xF0 ? 4 : 0, got = Unicode::length((char)b);
+    if (got != want) { printf("MISMATCH length of byte %02x lib=%u ref=%u\n", b, (unsigned)got, (unsigned)want); fflush(stdout); exit(1); }
+  }
+  // every lead byte followed by eight continuation bytes, in an exactly sized block: fromString must stay inside its tables and the block
+  for (unsigned b = 0x80; b < 256; ++b) for (size_t len = 1; len <= 9; ++len) {
+    char* p = (char*)malloc(len); p[0] = (char)b; for (size_t k = 1; k < len; ++k) p[k] = (char)(0x80 | (k * 7 & 0x3F));
+    (void)Unicode::fromString(p, len); (void)Unicode::isValid(p, len); free(p); ++total;
+  }
   unsigned char buf[4];
   for (size_t len = 0; len <= maxlen; ++len) {
     unsigned long long combos = 1; for (size_t k = 0; k < len; ++k) combos *= 256;
